@@ -3989,6 +3989,90 @@ def _g19_loop_up_text(self, i, step, bound_e, rest, state, styp, captured, env):
 Gen.emit_loop_up, Gen.loop_up_text = _g19_emit_loop_up, _g19_loop_up_text
 
 
+# ---- (G19) `SafeGcdInverter::{new, inv}`: calls into the conversion unit (two const generics), struct literal, ONE / MINUS_ONE ----
+
+_ty_of_g19, _lookup_g19, _call_g19, _ex_g19b = ty_of, Gen.lookup, Gen.call, Gen.ex
+_read_unsat_consts_g19 = read_unsat_consts
+
+
+def read_unsat_consts(src):
+    """also `MINUS_ONE = Self([Self::MASK; LIMBS])` and `ONE = { let mut ret = Self::ZERO; ret.0[0] = 1; ret }` (read on every run)"""
+    _read_unsat_consts_g19(src)
+    if 'MASK' in UNSAT_CONSTS and re.search(r'\bconst\s+MINUS_ONE\s*:\s*Self\s*=\s*Self\(\s*\[\s*Self::MASK\s*;\s*LIMBS\s*\]\s*\)\s*;', src):
+        UNSAT_CONSTS['MINUS_ONE'] = '(List.replicate {L} ' + UNSAT_CONSTS['MASK'] + ')'
+    m = re.search(r'\bconst\s+ONE\s*:\s*Self\s*=\s*\{\s*let\s+mut\s+(\w+)\s*=\s*Self::ZERO\s*;\s*(\w+)\.0\[(\d+)\]\s*=\s*(\d+)\s*;\s*(\w+)\s*\}\s*;', src)
+    if 'ZERO' in UNSAT_CONSTS and m and m.group(1) == m.group(2) == m.group(5):
+        UNSAT_CONSTS['ONE'] = '((List.replicate {L} 0#64).set ' + m.group(3) + ' ' + m.group(4) + '#64)'
+
+
+def ty_of(t, self_ty):
+    t0 = t.strip()
+    if OPTS.get('inverter_api') and OPTS.get('generic2') and re.match(r'Odd\s*<\s*Uint\s*<\s*' + OPTS['generic2'] + r'\s*>\s*>$', t0):
+        return 'odduint'
+    return _ty_of_g19(t, self_ty)
+
+
+def _g19_lookup(self, name, where):
+    if where == 'inverter':
+        c = (self.ext.get('g19') or {}).get('inverter')
+        return (c[0], c[1].get(name)) if c else (None, None)
+    ns, sig = _lookup_g19(self, name, where)
+    if sig is None and where == 'unsat' and OPTS.get('inverter_api'):
+        c = (self.ext.get('g19') or {}).get('convert')
+        if c and name in c[1]:
+            return c[0], c[1][name]
+    return ns, sig
+
+
+def _g19_call(self, name, args, env, where='self'):
+    ns, sig = self.lookup(name, where)
+    g2 = OPTS.get('generic2')
+    if OPTS.get('inverter_api') and sig is not None and (ns, name) in GENERIC2_FNS and g2 and env.get(g2, (None, None))[1] == 'nat':
+        # a callee with the same two const generics (`UnsatInt::from_uint::<SAT_LIMBS>` from `impl SafeGcdInverter<SAT_LIMBS,
+        # UNSAT_LIMBS>`): both limb counts are passed on
+        GENERIC2_FNS.discard((ns, name))
+        try:
+            t, ty = _call_g19(self, name, args, env, where)
+        finally:
+            GENERIC2_FNS.add((ns, name))
+        head = f'({ns}.{name} {env[self.generic][0]} '
+        if not t.startswith(head):
+            raise Unsupported('call of ' + name)
+        return head + env[g2][0] + ' ' + t[len(head):], ty
+    return _call_g19(self, name, args, env, where)
+
+
+def _g19_ex2(self, e, env, want=None):
+    if not OPTS.get('inverter_api'):
+        return _ex_g19b(self, e, env, want)
+    k = e[0]
+    if k == 'struct' and e[1] == 'Self' and self.self_ty == 'SafeGcdInverter' and INVERTER_FIELDS:
+        given = dict(e[2])
+        if len(given) != len(e[2]) or set(given) != {f for f, _ in INVERTER_FIELDS}:
+            raise Unsupported('struct literal fields')
+        parts = []
+        for f, fty in INVERTER_FIELDS:
+            t, ty = self.ex(given[f], env, fty)
+            if ty != fty:
+                raise Unsupported(f'field type {ty} for {fty}')
+            parts.append(t)
+        return '(' + ', '.join(parts) + ')', tuple(t for _, t in INVERTER_FIELDS)
+    if k == 'path' and len(e[1]) == 2 and e[1][0] == 'UnsatInt' and e[1][1] in ('ONE', 'MINUS_ONE'):
+        if e[1][1] not in UNSAT_CONSTS or not self.generic or env.get(self.generic, (None, None))[1] != 'nat':
+            raise Unsupported(f'constant UnsatInt::{e[1][1]} changed in the source')
+        return UNSAT_CONSTS[e[1][1]].replace('{L}', env[self.generic][0]), 'unsat'
+    if k == 'method' and e[2] == ('var', 'self') and self.self_ty == 'SafeGcdInverter' and self.lookup(e[1], 'inverter')[1] is not None:
+        return self.call(e[1], [e[2]] + e[3], env, 'inverter')
+    if k == 'field' and e[2] == 0:
+        t, ty = self.ex(e[1], env)
+        if ty == 'odduint':
+            return t, 'uint'
+    return _ex_g19b(self, e, env, want)
+
+
+Gen.lookup, Gen.call, Gen.ex = _g19_lookup, _g19_call, _g19_ex2
+
+
 DIV_LIMB = 'src/uint/div_limb.rs'
 FILES = [
     # (generated file, imports, units); a unit: rust file, lean namespace, impl type or None, description, options
@@ -4153,6 +4237,11 @@ FILES = [
              unsat=True, limb_convert=True, panic_guards=True, generic2='SAT_LIMBS',
              desc='impl<const LIMBS: usize> UnsatInt<LIMBS>: from_uint, to_uint (the macro impl_limb_convert! expanded: 64-bit words <-> 62-bit words)',
              want=['from_uint', 'to_uint']),
+        dict(key='inverter_api', rel=['src/modular/safegcd.rs'], ns='CB.Gen.SafeGcdLimbs.InverterApi', self_ty='SafeGcdInverter',
+             generic='UNSAT_LIMBS', generic2='SAT_LIMBS', unsat=True, inverter=True, limb_convert=True, inverter_api=True,
+             use=['safegcd_limbs', 'safegcd'],
+             desc='impl SafeGcdInverter<SAT_LIMBS, UNSAT_LIMBS>: new, inv (the inverter is the tuple of its fields modulus, adjuster, inverse)',
+             want=['new', 'inv']),
     ]),
 ]
 
@@ -4257,6 +4346,8 @@ def main():
             OPTS.update({k: u[k] for k in ('usize_param_nat',) if u.get(k)})
             OPTS.update({k: u[k] for k in ('unsat',) if u.get(k)})      # (G18) `UnsatInt<LIMBS>` values
             OPTS.update({k: u[k] for k in ('limb_convert',) if u.get(k)})      # (G19) `impl_limb_convert!` expanded in the unit's text
+            OPTS.update({k: u[k] for k in ('inverter_api',) if u.get(k)})      # (G19) `SafeGcdInverter::{new, inv}`
+            ext['g19'] = dict(convert=reg.get('unsat_convert'), inverter=reg.get('inverter'))
             ext['unsat'] = reg.get('unsat')
             if u.get('inverter'):
                 try:
